@@ -106,6 +106,12 @@ func (block *CBlock) registeredCandidates() []*Candidate {
 	return result
 }
 
+// rankedBehind returns true if a comes after b in the ranking: less votes, or the same votes and a bigger address
+func rankedBehind(a *Candidate, b *Candidate) bool {
+	val := a.Total.Cmp(b.Total)
+	return (val < 0) || ((val == 0) && (bytes.Compare(a.Address[:], b.Address[:]) > 0))
+}
+
 func (block *CBlock) updateTop(changedCandidates []*Candidate) {
 	newTop := block.Top.Clone()
 	// remove unregistered candidates
@@ -121,7 +127,7 @@ func (block *CBlock) updateTop(changedCandidates []*Candidate) {
 		// some candidates unregistered. so maybe some normal nodes will become new candidates
 		// resort all candidates
 		block.Top.Rank(max_candidate_count, block.registeredCandidates())
-	} else if newTop.Min().Total.Cmp(block.Top.Min().Total) >= 0 {
+	} else if !rankedBehind(newTop.Min(), block.Top.Min()) {
 		// the min votes become bigger, it means some old candidates get richer now.
 		// the other candidates whose vote is not changed, must not be in the top list. so we can just use the newTop
 		block.Top = newTop
